@@ -3256,15 +3256,52 @@ XPath::stepPattern(
                                     argLen,
                                     stepType);
 
-                    while(0 != context)
+                    // The any-ancestor step took the nearest ancestor
+                    // that satisfies it, and that one is not a child of
+                    // the root.  The only ancestor that can be a child of
+                    // the root is the top-level one, so the pattern matches
+                    // exactly when that node satisfies the step as well.
+                    XalanNode*  theTop = context;
+                    XalanNode*  theRoot = DOMServices::getParentOfNode(*theTop);
+
+                    while(0 != theRoot &&
+                          eMatchScoreNone == theTester(*theRoot, theRoot->getNodeType()))
                     {
-                        score =
-                            theTester(*context, context->getNodeType());
+                        theTop = theRoot;
 
-                        if(eMatchScoreNone != score)
-                            break;
+                        theRoot = DOMServices::getParentOfNode(*theTop);
+                    }
 
-                        context = DOMServices::getParentOfNode(*context);
+                    if (0 != theRoot)
+                    {
+                        const OpCodeMapValueType    prevArgLen =
+                            currentExpression.getOpCodeArgumentLength(prevPos);
+
+                        eMatchScore     theTopScore =
+                            NodeTester(
+                                *this,
+                                executionContext,
+                                prevPos + 3,
+                                prevArgLen,
+                                prevStepType)(*theTop, theTop->getNodeType());
+
+                        if (eMatchScoreNone != theTopScore)
+                        {
+                            theTopScore =
+                                doStepPredicate(
+                                    executionContext,
+                                    theTop,
+                                    prevPos + 3 + prevArgLen,
+                                    prevPos,
+                                    theTopScore);
+                        }
+
+                        if (eMatchScoreNone != theTopScore)
+                        {
+                            score = eMatchScoreOther;
+
+                            context = theRoot;
+                        }
                     }
                 }
             }
